@@ -10,17 +10,17 @@ BASELINE_OFF = "for m in $(cat /w/out/gomods.txt); do MF=$(cd /repo/$m && . /w/o
 TEXT = {
  'C17': dict(
    technique='runtime law monitor: Go operators as reference, argument-logging base instances, all pairs/triples of a boundary+random pool',
-   text='Every Eq/Ord/ContraMap/From/Monoid entry point is executed on all pairs (and all triples for transitivity) of a pool of boundary and seed-random ints and strings; the oracle is the Go operator or the wrapped function itself, and base instances log their arguments so argument order is observed. Exploration of the input space, exhaustive over the pool.',
+   text='Every Eq/Ord/ContraMap/From/Monoid entry point is executed on all pairs (and all triples for transitivity) of a pool of boundary and seed-random ints and strings; the oracle is the Go operator or the wrapped function itself, and base instances log their arguments so argument order is observed. Exploration of the input space, exhaustive over the pool. monoid.From is also given semigroups that are themselves monoids with another identity.',
    note='Trusts Go\'s ==, < on int/string. Pool size bounds what is seen (40 values quick, 90 thorough per sort).',
    ref='DESIGN.md §6 C17'),
  'C01': dict(
    technique='generated-program workload (struct shapes + optic derivations) + byte-level neighbour monitor in a canary guard with the compiler\'s layout (selectors) as oracle + twin-structure differential; checkptr (quick) and AddressSanitizer (thorough) underneath',
-   text='A seed-driven generator writes Go source: 60 (quick) / 240 (thorough) root struct shapes with up to 12 fields of mixed size and alignment (zero-size, pointers, interfaces, arrays, named types, nested anonymous structs, value embedding to depth 3, embedded named types, tags, duplicate names/types across depths). Every focusable entry is derived by name and by type through ForProduct1..9 / ForSpectrum1..9; each resulting Lens/Reflector runs GetPut/PutGet/PutPut over pairs of pool values inside a heap guard whose every byte is snapshotted around each operation: Get must equal the selector read and write nothing, Put must return its argument, set the field and leave every byte outside [offset,offset+size) of the focus (other fields, padding, both canaries) unchanged; a twin edited through selectors must be DeepEqual. A second allocation mode puts S alone in its heap object for checkptr/ASan.',
+   text='A seed-driven generator writes Go source: 60 (quick) / 240 (thorough) root struct shapes with up to 12 fields of mixed size and alignment (zero-size, pointers, interfaces, arrays, named types, nested anonymous structs, value embedding to depth 3, embedded named types, tags, duplicate names/types across depths). Every focusable entry is derived by name and by type through ForProduct1..9 / ForSpectrum1..9; each resulting Lens/Reflector runs GetPut/PutGet/PutPut over pairs of pool values inside a heap guard whose every byte is snapshotted around each operation: Get must equal the selector read and write nothing, Put must return its argument, set the field and leave every byte outside [offset,offset+size) of the focus (other fields, padding, both canaries) unchanged; a twin edited through selectors must be DeepEqual. A second allocation mode puts S alone in its heap object for checkptr/ASan. Also derived by entry (NewLens/NewReflector on the i-th entry of the unfolding, reaching shadowed fields) and for two look-alike container types from packages of the same name; value pools include negative zeros and uncomparable dynamic values inside interfaces, compared bit-exactly.',
    note='Trusts the Go compiler for layout (selectors, unsafe.Sizeof) and reflect.DeepEqual for focus values. Shapes are those of the grammar in lib/optgen.py.',
    ref='DESIGN.md §5, §6 C01'),
  'C02': dict(
    technique='generated-program workload + resolution model (first match / must fail) + recover() around every derivation + byte snapshots for wrong dynamic arguments; silently accepted optics are exercised under checkptr/ASan in a guard after the verdict is checkpointed',
-   text='For every generated shape: unknown names, focus types no field has, too few names for K >= 2, names whose field has another type (near misses: same size, named vs underlying, any vs concrete both ways, pointer flips), K-tuples with one bad focus, every entry reached through an embedded pointer (by name and by type when it is the first match), and container type parameters *S, []S, int for ForProduct/ForSpectrum/ForShape/BiMapX must all panic at derivation; a Reflector handed S by value, **S, *Other, nil, an int, unsafe.Pointer or uintptr must panic and leave the bytes of the memory it was handed unchanged.',
+   text='For every generated shape: unknown names, focus types no field has, too few names for K >= 2, names whose field has another type (near misses: same size, named vs underlying, any vs concrete both ways, pointer flips), K-tuples with one bad focus, every entry reached through an embedded pointer (by name and by type when it is the first match), and container type parameters *S, []S, int for ForProduct/ForSpectrum/ForShape/BiMapX must all panic at derivation; a Reflector handed S by value, **S, *Other, nil, an int, unsafe.Pointer or uintptr must panic and leave the bytes of the memory it was handed unchanged. Entries crossing a pointer must also be refused by NewLens/NewReflector directly; a Reflector of one of two look-alike containers (same printed type name, different packages) must refuse the other\'s pointer.',
    note='Typed nil *S is not passed (it is a pointer to the container type). Two genuine defects were found and repaired (pointer containers, foci through embedded pointers): see known_findings.json.',
    ref='DESIGN.md §5, §6 C02'),
  'C03': dict(
@@ -30,32 +30,32 @@ TEXT = {
    ref='DESIGN.md §5, §6 C03'),
  'C04': dict(
    technique='generated-program workload + byte-level monitor on both structures + twin-structure differential for Join/BiMap/BiMapS,B,I,F/Getter/Setter/ForShape2..9/Iso/Morphism; hand-written map-lens monitor',
-   text='Join through 1-3 levels of nested struct fields, BiMap with inverse conversion pairs, BiMapS/B/I/F by name and by type, Getter (Put changes no byte), Setter (Put writes the converted value, Get is zero), ForShapeK over disjoint foci of mixed types with value tuples, Iso and Morphism over lists with nil and repeated entries between the shape and a padded twin structure (Forward copies exactly the included foci, Inverse restores the source foci, no byte outside the foci of either structure changes), NewLensM touching only its key.',
+   text='Join through 1-3 levels of nested struct fields, BiMap with inverse conversion pairs, BiMapS/B/I/F by name and by type, Getter (Put changes no byte), Setter (Put writes the converted value, Get is zero), ForShapeK over disjoint foci of mixed types with value tuples, Iso and Morphism over lists with nil and repeated entries between the shape and a padded twin structure (Forward copies exactly the included foci, Inverse restores the source foci, no byte outside the foci of either structure changes), NewLensM touching only its key. Iso lists include morphisms nested in morphisms.',
    note='For Join the byte-exact region is the outermost intermediate field (value copies may rewrite padding inside it); all other fields are compared through the twin.',
    ref='DESIGN.md §5, §6 C04'),
  'C05': dict(
    technique='environment-move scheduler in synctest bubbles (real goroutines, virtual time, quiescence) + list-function oracle, user-function call log, consumed-element count; Go race detector on',
-   text='Every sequential stage runs inside a testing/synctest bubble under scripts of environment moves: all interleavings of the producer program (sends, close) with the consumer programs for inputs of length 0-2 (quick) / 0-3 (thorough), capacities 0-2 and all Take n, then seed-random scripts (inputs <= 40, capacity <= 8, bursts). After send-rest/close/drain the received sequences must equal the list function, every channel must have closed, the user function must have been called exactly on the consumed elements in order, and Take must not remove more than n elements from its input. Exploration, exhaustive over environment scripts on the small bound; library-internal schedules are sampled.',
+   text='Every sequential stage runs inside a testing/synctest bubble under scripts of environment moves: all interleavings of the producer program (sends, close) with the consumer programs for inputs of length 0-2 (quick) / 0-3 (thorough), capacities 0-2 and all Take n, then seed-random scripts (inputs <= 40, capacity <= 8, bursts). After send-rest/close/drain the received sequences must equal the list function, every channel must have closed, the user function must have been called exactly on the consumed elements in order, and Take must not remove more than n elements from its input. Exploration, exhaustive over environment scripts on the small bound; library-internal schedules are sampled. ForEach is also run with Lift/Try functions whose visits fail (every element is still visited once).',
    note='Trusts testing/synctest for quiescence and the list oracle in harness/envsched/stages.go. GOMAXPROCS varies per child process.',
    ref='DESIGN.md §4, §6 C05'),
  'C06': dict(
    technique='environment-move scheduler in synctest bubbles + online prefix/closed-early monitor at every quiescent point + goroutine census (runtime.Stack filtered to the bubble and golem frames) + synctest deadlock detection; Go race detector on',
-   text='All 14 stages and StdErr-wrapped variants: all interleavings of producer program(s), consumer receives, virtual-clock advances and one cancel for inputs of length 0-2 (quick) / 0-3 (thorough) and capacities 0-3, the same without cancel, and seed-random longer scripts with bursts, absent consumers and unclosed inputs. At every quiescent point what was delivered must be a prefix of the uncancelled result and nothing may have closed early; the completion end game requires all channels closed and no library goroutine left (pacer excepted); the cancellation end game (cancel, inputs closed, nobody receiving) requires the census to be empty within the stage\'s bound of virtual ticks and every channel to report closed when finally drained. A panic in a library goroutine kills the child and is attributed through the write-ahead log.',
+   text='All 14 stages and StdErr-wrapped variants: all interleavings of producer program(s), consumer receives, virtual-clock advances and one cancel for inputs of length 0-2 (quick) / 0-3 (thorough) and capacities 0-3, the same without cancel, and seed-random longer scripts with bursts, absent consumers and unclosed inputs. At every quiescent point what was delivered must be a prefix of the uncancelled result and nothing may have closed early; the completion end game requires all channels closed and no library goroutine left (pacer excepted); the cancellation end game (cancel, inputs closed, nobody receiving) requires the census to be empty within the stage\'s bound of virtual ticks and every channel to report closed when finally drained. A panic in a library goroutine kills the child and is attributed through the write-ahead log. Fail-fast (Lift) and Try failures with nobody reading the error output are included, and a second cancellation end game keeps the consumers draining after cancel (a stage must stop after a handful of further values).',
    note='Known finding F6 (Fold delivers a partial accumulator after cancel) is listed in known_findings.json. Emit\'s exit bound after cancel is 2*cap+2+#failing indices ticks (select may legally prefer a ready send).',
    ref='DESIGN.md §4, §6 C06'),
  'C07': dict(
    technique='fault enumeration: every subset of failing positions up to the bound x stage x mode x capacity x consumer discipline, run in synctest bubbles; list model with failure bitmap; errors are unique ids so exactly-once is decidable; race detector on',
-   text='For every input length 0-6 (quick) / 0-8 (thorough) ALL 2^n subsets of failing positions are injected into Map and FMap under Lift/LiftF and Try/TryF at capacities 0,1,2,4 under several consumer disciplines (values first, errors first, alternating, random, bursts, two always-ready consumers); Emit gets every failure bitmap over its call indices in both modes and Unfold fails at every single orbit position (fail-fast); random longer inputs with failure densities 0-100% follow. Values, errors (in order, exactly once), user-function calls (nothing after the first failure under fail-fast), closure of both channels and absence of leftover goroutines are compared with the model.',
+   text='For every input length 0-6 (quick) / 0-8 (thorough) ALL 2^n subsets of failing positions are injected into Map and FMap under Lift/LiftF and Try/TryF at capacities 0,1,2,4 under several consumer disciplines (values first, errors first, alternating, random, bursts, two always-ready consumers); Emit gets every failure bitmap over its call indices in both modes and Unfold fails at every single orbit position (fail-fast); random longer inputs with failure densities 0-100% follow. Values, errors (in order, exactly once), user-function calls (nothing after the first failure under fail-fast), closure of both channels and absence of leftover goroutines are compared with the model. Half of the scripts never close the input: after the failing element was sent and both channels are read, both must close, no goroutine may remain and nothing past the failing element may have been taken from the input. One failure in three wraps context.Canceled/DeadlineExceeded while the pipeline context is alive.',
    note='The proviso of the property (the error channel is read) is honoured: the end game drains both channels concurrently. Unfold under Try is not exercised (the property restricts Unfold to fail-fast).',
    ref='DESIGN.md §6 C07'),
  'C08': dict(
    technique='environment-move scheduler in synctest bubbles with sequence-numbered send completions vs cancel; FIFO/conservation checker on unique ids; porcupine linearizability check of real-time multi-sender/multi-receiver histories against a FIFO-queue model; real-time soak; race detector on',
-   text='pipe.New is driven by scripts that empty and refill the queue repeatedly, park values in the input buffer right before cancel (sends performed by the cancelling goroutine itself), cancel with backlog and slow receiver, close the send side with backlog / racing a receive / racing cancel, build backlogs to 10^4, at capacities 0-8 with 1-3 senders. Online: no send may be pending at a quiescent point before cancel/close and nothing closes early; final: the drained sequence is an order-preserving duplicate-free selection of what was sent, every send completed before cancel() is delivered, the receive side closes. 300 (quick) / 6000 (thorough) concurrent real-time histories are checked with porcupine, plus a 60k / 600k value soak.',
+   text='pipe.New is driven by scripts that empty and refill the queue repeatedly, park values in the input buffer right before cancel (sends performed by the cancelling goroutine itself), cancel with backlog and slow receiver, close the send side with backlog / racing a receive / racing cancel, build backlogs to 10^4, at capacities 0-8 with 1-3 senders. Online: no send may be pending at a quiescent point before cancel/close and nothing closes early; final: the drained sequence is an order-preserving duplicate-free selection of what was sent, every send completed before cancel() is delivered, the receive side closes. 300 (quick) / 6000 (thorough) concurrent real-time histories are checked with porcupine, plus a 60k / 600k value soak. Busy periods of exactly k values (k around powers of two up to 128) followed by refills exercise block/segment boundaries of the queue.',
    note='Scripts in which a user send can race the library\'s close of the send side run in the plain build only (the race detector reports close-vs-send, a documented consequence of the API); everything else also runs under -race. A porcupine timeout is inconclusive.',
    ref='DESIGN.md §6 C08'),
  'C09': dict(
    technique='environment-move scheduler in synctest bubbles; per-element virtual processing delays permute completion order of in-flight calls; multiset oracle on unique ids + per-element call counters + goroutine census; Go race detector, GOMAXPROCS varied per child; real-time soak',
-   text='fork.Map/FMap/Filter/Partition/ForEach/Void in Pure and Try modes with 1-8 (16, 64 thorough) workers: all interleavings of producer/consumer/cancel moves for inputs 0-3 with 1-3 workers, then seed-random scripts over inputs up to 60 (200 for 16+ workers) with delay families that make in-flight calls complete in many different orders (evidence counts distinct output orders). Online the delivered values must be a sub-multiset of the sequential result; at completion multiset equality, exactly one call per element, all channels closed, census empty; after cancel the census empties within the bound, channels close, and no element was handed to the user function twice. A send on a closed channel kills the child and is attributed via the write-ahead log; any race report between golem frames is a violation.',
+   text='fork.Map/FMap/Filter/Partition/ForEach/Void in Pure and Try modes with 1-8 (16, 64 thorough) workers: all interleavings of producer/consumer/cancel moves for inputs 0-3 with 1-3 workers, then seed-random scripts over inputs up to 60 (200 for 16+ workers) with delay families that make in-flight calls complete in many different orders (evidence counts distinct output orders). Online the delivered values must be a sub-multiset of the sequential result; at completion multiset equality, exactly one call per element, all channels closed, census empty; after cancel the census empties within the bound, channels close, and no element was handed to the user function twice. A send on a closed channel kills the child and is attributed via the write-ahead log; any race report between golem frames is a violation. fork.Map/FMap also run in Lift mode with more failing elements than workers (sub-multiset results, exact closure/census), fork.ForEach with failing visits.',
    note='Fail-fast (Lift) mode is not exercised for fork stages (the property speaks of Try-mode errors). Distinct output orders are counted per child process.',
    ref='DESIGN.md §6 C09'),
  'C10': dict(
@@ -65,22 +65,22 @@ TEXT = {
    ref='DESIGN.md §6 C10'),
  'C11': dict(
    technique='synctest virtual clock: timestamps of user-function calls and of receipts vs tick arithmetic; successive-sequence prefix monitor; cancel at every script position with goroutine census',
-   text='Emit and Unfold at capacities 0-8 and frequencies 1 ns, 1 ms, 1 s, 1 h: always-ready consumers (exactly one value per tick, at the tick), idle periods longer than the capacity followed by bursts (back-pressure), random schedules, Try failure bitmaps, cancel inserted at every position. f must be called on consecutive arguments once each, the k-th Emit call not before k ticks and never less than a tick after the previous one, no value available before its tick; after cancel the stage stops and closes within its tick bound.',
+   text='Emit and Unfold at capacities 0-8 and frequencies 1 ns, 1 ms, 1 s, 1 h: always-ready consumers (exactly one value per tick, at the tick), idle periods longer than the capacity followed by bursts (back-pressure), random schedules, Try failure bitmaps, cancel inserted at every position. f must be called on consecutive arguments once each, the k-th Emit call not before k ticks and never less than a tick after the previous one, no value available before its tick; after cancel the stage stops and closes within its tick bound. Unfold also runs with a slow step function and a consumer that keeps draining after cancel; Emit\'s consumer also resumes off the tick grid after back-pressure.',
    note='Time is the bubble\'s virtual clock: all bounds are exact arithmetic, no wall clock.',
    ref='DESIGN.md §6 C11'),
  'C12': dict(
    technique='synctest-bubble scheduler; elements tagged (input, index); online interleaving checker and close-implies-complete monitor at every quiescent point; goroutine census; race detector; real-time soak',
-   text='Join with 0-5 inputs: all interleavings of per-input producer programs (sends, close) and receives for tiny shapes (no inputs, all empty, 1-3 inputs of 0-2 elements) at capacities 0-2, then seed-random scripts with up to 5 inputs of 0-20 elements, capacities 0-4, bursts and inputs left open until the end game. At every quiescent point the output must be an order-respecting sub-multiset of the inputs and must not be closed while an input is open or undelivered; at completion multiset equality, per-input order, closure and an empty census.',
+   text='Join with 0-5 inputs: all interleavings of per-input producer programs (sends, close) and receives for tiny shapes (no inputs, all empty, 1-3 inputs of 0-2 elements) at capacities 0-2, then seed-random scripts with up to 5 inputs of 0-20 elements, capacities 0-4, bursts and inputs left open until the end game. At every quiescent point the output must be an order-respecting sub-multiset of the inputs and must not be closed while an input is open or undelivered; at completion multiset equality, per-input order, closure and an empty census. Wide joins (6-17 inputs), a single producer goroutine serving all inputs in a fixed order, and a progress monitor (while the consumer drains no send may be left waiting) are included.',
    note='Cancelled runs of Join are covered by C06.',
    ref='DESIGN.md §6 C12'),
  'C13': dict(
    technique='synctest virtual clock: two-pointer sweep over delivery timestamps for the window bound, per-element schedule bounds for the always-available/always-ready case; order/closure oracle; race detector',
-   text='Throttling for ops 1-6, intervals 1 ms and 1 s, capacities 0-4, inputs up to 60: always-available input with an always-ready consumer (observed at whole and half intervals), consumer stalled for several intervals then draining (the worst-case burst), idle input then a burst of arrivals, cancel mid-stream, and seed-random arrival/consumer/clock schedules. Delivered must equal the input in order and close with it; before cancel no half-open window of one interval may hold more than 2*ops+1+c deliveries; in the always-available/always-ready case element i must lie in [floor(i/ops)*interval, +interval]. Evidence records the largest window count seen.',
+   text='Throttling for ops 1-6, intervals 1 ms and 1 s, capacities 0-4, inputs up to 60: always-available input with an always-ready consumer (observed at whole and half intervals), consumer stalled for several intervals then draining (the worst-case burst), idle input then a burst of arrivals, cancel mid-stream, and seed-random arrival/consumer/clock schedules. Delivered must equal the input in order and close with it; before cancel no half-open window of one interval may hold more than 2*ops+1+c deliveries; in the always-available/always-ready case element i must lie in [floor(i/ops)*interval, +interval]. Evidence records the largest window count seen. Intervals also include 200 us and 1 us.',
    note='The bound is checked exactly as stated; tighter bounds the code happens to meet are not demanded.',
    ref='DESIGN.md §6 C13'),
  'C14': dict(
    technique='reference-model monitor: real combinators drained by the documented loop vs strict list interpreter of the same expression tree; per-node callback-argument log; logical step budget for runaway loops',
-   text='All expression trees to depth 3 over a leaf/function alphabet plus seed-random trees to depth 7 are built from fresh leaves, drained and run through ForEach with a visitor failing at several positions; result, visited prefix, returned error, callback arguments and source slices are compared with a list interpreter. Exploration, exhaustive on the small bound.',
+   text='All expression trees to depth 3 over a leaf/function alphabet plus seed-random trees to depth 7 are built from fresh leaves, drained and run through ForEach with a visitor failing at several positions; result, visited prefix, returned error, callback arguments and source slices are compared with a list interpreter. Exploration, exhaustive on the small bound. A third of the slice leaves are views with spare capacity; the whole backing array must be unchanged.',
    note='Trusts the slice interpreter in harness/itermon. Leaves and function families are those of the grammar; trees larger than 200 nodes are skipped.',
    ref='DESIGN.md §6 C14'),
  'C15': dict(
@@ -90,7 +90,7 @@ TEXT = {
    ref='DESIGN.md §6 C15'),
  'C16': dict(
    technique='reference-model monitor: callback trace of Morphism.Apply vs tree+open-context-stack model, independent bracket checker, visitor failing at every callback position',
-   text='All well-typed programs to length 5 (quick) / 7 (thorough) over a reduced target alphabet and random programs to length 30 over 10 element types are executed through explicit generic instantiations; the full callback trace (kind, depth, type names, tokens, child counts) must equal the model trace, be well bracketed, and stop exactly at the failing callback returning its error. Exploration, exhaustive on the small bound.',
+   text='All well-typed programs to length 5 (quick) / 7 (thorough) over a reduced target alphabet and random programs to length 30 over 10 element types are executed through explicit generic instantiations; the full callback trace (kind, depth, type names, tokens, child counts) must equal the model trace, be well bracketed, and stop exactly at the failing callback returning its error. Exploration, exhaustive on the small bound. The universe includes pointer-over-slice types and duct.TypeOf is compared with independently written normalized names.',
    note='Trusts the reference model in harness/ductmon and duct.TypeOf for the expected names (as the property states). Deferred flags of AstSeq are not compared (not part of the statement).',
    ref='DESIGN.md §6 C16'),
  'C18': dict(
@@ -100,12 +100,12 @@ TEXT = {
    ref='DESIGN.md §6 C18'),
  'C19': dict(
    technique='lock-step differential monitor: list and slice implementations vs immutable-slice model, re-extracting every sequence ever created after every step (persistence)',
-   text='All scripts of New/Cons/Tail to length 5 (quick) / 7 (thorough) over a growing pool of live sequences and random scripts to 300 steps; after each step every sequence of both implementations is extracted with IsEmpty/Head/Tail and Length/IsEmpty/Head/Fold (non-commutative, non-zero empty) are compared with the model.',
+   text='All scripts of New/Cons/Tail to length 5 (quick) / 7 (thorough) over a growing pool of live sequences and random scripts to 300 steps; after each step every sequence of both implementations is extracted with IsEmpty/Head/Tail and Length/IsEmpty/Head/Fold (non-commutative, non-zero empty) are compared with the model. Random scripts include New of 31..1025 elements.',
    note='Built from a staged copy of internal/seq. Head/Tail never applied to empty sequences.',
    ref='DESIGN.md §6 C19'),
  'C20': dict(
    technique='trace-function monitor: result string is the application order; per-function call counters and argument logs; affine non-commuting family as second witness',
-   text='For N = 2..20 the staged PipeN is applied to trace functions (same type and one distinct type per stage) and to affine maps with seed-chosen coefficients for hundreds of arguments; result, per-function call count (exactly 1) and the argument each function received are compared with the left-to-right composition.',
+   text='For N = 2..20 the staged PipeN is applied to trace functions (same type and one distinct type per stage) and to affine maps with seed-chosen coefficients for hundreds of arguments; result, per-function call count (exactly 1) and the argument each function received are compared with the left-to-right composition. Families over interface types with nil values, a stage re-entering the composed function, and concurrent calls of one composed function are included; the distinct-type-per-stage families are compiled behind a build tag so that a signature that no longer type-checks is reported and the rest still runs.',
    note='Built from a staged copy of internal/pipe (package pure).',
    ref='DESIGN.md §6 C20'),
 }
